@@ -105,7 +105,9 @@ const Statement * FORStatement::doit(Context& ctx) const
   else
   {
     RT * data = reinterpret_cast<RT*>(ctx.topControlData());
-    /* var is type safe, so it can be read/write without care */
+    /* var is type safe, but the body can have set it to null */
+    if (data->iterator->isNull())
+      throw RuntimeError(EXC_RT_NOT_INTEGER);
     Integer cur = *(data->iterator->integer());
     /* the control variable never wraps around: the distance to the bound is
      * computed in unsigned arithmetic before the step is added */
